@@ -78,7 +78,13 @@ def rules(model: Model, tier: str) -> List[RuleResult]:
         _check_shape(f, SH)
     _check_termination_condition(model, TC)
     _check_best_point(model, ents, RB)
-    return [W, W2, P, RC, RZ, RB, SH, TC]
+    from ..rules import autograd as _ac
+    _R11 = RuleResult(PROP, "AC11", "every exit of the public functional returns the Function's output; forward's solution comes only from the dispatched implementation; operands unchanged", min_instances=2)
+    for _cn in ['_RootFinder']:
+        _fc = _ac.get_fncls(model, _cn)
+        _ac.ac11_wrapper_returns(model, _fc, _R11)
+        _ac.ac11_forward_provenance(model, _fc, _R11)
+    return [W, W2, P, RC, RZ, RB, SH, TC, _R11]
 
 
 def _check_shape(f: FuncInfo, SH: RuleResult):
